@@ -13,7 +13,8 @@ EX_RE = re.compile(r'\(\*\* ([^\n]*?) \*\)\s*\nExample (listing_\d+) : map show 
 # further template files: (file, regex kind, declarations the statements are compiled under)
 MORE = [('GenSplit.v', 'slisting', 'stemplate',
          'superchip unsigned char c, d; superchip unsigned short s, t; superchip unsigned char *p; superchip unsigned char arr[4]; unsigned char a;'),
-        ('GenLoops.v', 'llisting', 'ltemplate', 'unsigned char a, b, c, i;')]
+        ('GenLoops.v', 'llisting', 'ltemplate', 'unsigned char a, b, c, i;'),
+        ('GenIf.v', 'ilisting', None, 'unsigned char a, b, c;')]
 
 
 def more_listings():
@@ -23,7 +24,11 @@ def more_listings():
         p = os.path.join(COQ, 'Model', fn)
         if not os.path.exists(p):
             continue
-        rx = re.compile(r'\(\*\* ([^\n]*?) \*\)\s*\nExample (%s_\d+) : map show \(%s \((.*?)\)\) =\s*\[(.*?)\]\.' % (ex, fun), re.S)
+        if fun is None:
+            # any template term (one line), e.g. map show (if_tpl (CVar REq "a" "b") (assign8 "c" 1) 1)
+            rx = re.compile(r'\(\*\* ([^\n]*?) \*\)\s*\nExample (%s_\d+) : map show \(([^\n]*)\) =\s*\[(.*?)\]\.' % ex, re.S)
+        else:
+            rx = re.compile(r'\(\*\* ([^\n]*?) \*\)\s*\nExample (%s_\d+) : map show \(%s \((.*?)\)\) =\s*\[(.*?)\]\.' % (ex, fun), re.S)
         for m in rx.finditer(open(p).read()):
             lines = re.findall(r'"((?:[^"]|"")*)"', m.group(4))
             out.append((m.group(2), m.group(1).strip(), m.group(3).strip(), [l.replace('""', '"') for l in lines], decl))
